@@ -1,6 +1,7 @@
 import Setec.Proofs.DB
 import Setec.Spec.DBMon
 import Setec.Proofs.Wire
+import Setec.Generated.Facts
 /-!
 # C09 - conditional get reports not-modified exactly when nothing changed
 
